@@ -2,6 +2,7 @@
 topology and every permutation of rule registration.  Imported by c15_runner.py."""
 import dataclasses
 import itertools
+import json
 from typing import Any, Optional, Sequence
 
 from annet.bgp_models import PeerOptions
@@ -158,18 +159,37 @@ def make_storage(case) -> StubStorage:
 
 # ---- registry from the case --------------------------------------------------------------------------
 
-def make_virtual_handler(table, dec):
+def _valuer(dec, consts):
+    """consts is None: every assignment gets a fresh object (handlers written with literals).
+    consts is a dict: equal values are ONE object for the life of the dict (handlers that assign module or
+    handler level constants such as UNICAST = {"ipv4_unicast"}); the handlers stay pure functions."""
+    if consts is None:
+        return dec
+
+    def val(v):
+        k = json.dumps(v, sort_keys=True)
+        if k not in consts:
+            consts[k] = dec(v)
+        return consts[k]
+    return val
+
+
+def make_virtual_handler(table, dec, consts=None):
+    val = _valuer(dec, consts)
+
     def handler(local, virtual, session):
         ent = table.get(f"{local.device.fqdn}|{virtual.num}")
         if ent is None:
             return
         for obj, key in ((local, "l"), (virtual, "r"), (session, "s")):
             for f, v in ent[key].items():
-                setattr(obj, f, dec(v))
+                setattr(obj, f, val(v))
     return handler
 
 
-def make_handler(table, dec, indirect):
+def make_handler(table, dec, indirect, consts=None):
+    val = _valuer(dec, consts)
+
     def handler(left, right, session):
         ports = "" if indirect else ",".join(sorted(left.ports))
         ent = table.get(f"{left.device.fqdn}|{right.device.fqdn}|{ports}")
@@ -177,7 +197,7 @@ def make_handler(table, dec, indirect):
             return
         for obj, key in ((left, "l"), (right, "r"), (session, "s")):
             for f, v in ent[key].items():
-                setattr(obj, f, dec(v))
+                setattr(obj, f, val(v))
     return handler
 
 
@@ -189,16 +209,16 @@ COND = {
 }
 
 
-def make_registry(case, order, dec) -> MeshRulesRegistry:
+def make_registry(case, order, dec, consts=None) -> MeshRulesRegistry:
     reg = MeshRulesRegistry()
     for idx in order:
         r = case["rules"][idx]
         if r["kind"] == "virtual":
-            h = make_virtual_handler(r["table"], dec)
+            h = make_virtual_handler(r["table"], dec, consts)
             h.__qualname__ = f"h{idx}"
             reg.virtual(r["left"], list(r["num"]))(h)
             continue
-        h = make_handler(r["table"], dec, r["kind"] == "indirect")
+        h = make_handler(r["table"], dec, r["kind"] == "indirect", consts)
         h.__qualname__ = f"h{idx}"
         conds = COND[r["cond"]]()
         if r["kind"] == "direct":
@@ -228,18 +248,37 @@ def enc_peer(p, enc):
     return d
 
 
-def run_one(case, order, devname, enc, dec):
-    storage = make_storage(case)
-    reg = make_registry(case, order, dec)
+def _execute(executor, storage, devname, enc):
     dev = next(d for d in storage.devices if d.fqdn == devname)
     try:
-        res = MeshExecutor(reg, storage).execute_for(dev)
+        res = executor.execute_for(dev)
     except ValueError as e:
         return {"err": "ValueError", "msg": str(e)[:160]}
     except Exception as e:  # noqa
         return {"err": "other", "exc": type(e).__name__ + ": " + str(e)[:160]}
     return {"ok": {"peers": [enc_peer(p, enc) for p in res.peers],
                    "addrs": [[i, a, v] for (i, a, v) in dev.addr_log]}}
+
+
+def run_one(case, order, devname, enc, dec):
+    storage = make_storage(case)
+    reg = make_registry(case, order, dec)
+    return _execute(MeshExecutor(reg, storage), storage, devname, enc)
+
+
+def run_seq(case, enc, dec):
+    """Several execute_for calls in one process: ONE registry whose handlers assign shared constant objects,
+    a first executor over one storage computing every device in turn, then a second executor over a new storage
+    computing them in the reverse order.  Returns the runs in the order they were made: [[device, outcome]...]."""
+    order = list(range(len(case["rules"])))
+    reg = make_registry(case, order, dec, consts={})
+    runs = []
+    for devs in (case["devices"], list(reversed(case["devices"]))):
+        storage = make_storage(case)
+        executor = MeshExecutor(reg, storage)
+        for d in devs:
+            runs.append([d, _execute(executor, storage, d, enc)])
+    return runs
 
 
 def run_case(case, enc, dec):
@@ -250,4 +289,7 @@ def run_case(case, enc, dec):
     out = {}
     for d in case["devices"]:
         out[d] = [run_one(case, o, d, enc, dec) for o in orders]
-    return {"orders": orders, "out": out, "option_fields": OPTION_FIELDS}
+    res = {"orders": orders, "out": out, "option_fields": OPTION_FIELDS}
+    if case.get("seq"):
+        res["seq"] = run_seq(case, enc, dec)
+    return res
